@@ -29,8 +29,8 @@ pub open spec fn dist_code(dist: u32) -> int {
     DIST_CODE_TABLE[if dist <= 256 { dist as int - 1 } else { 256 + ((dist as int - 1) / 128) }] as int
 }
 
-spec fn ref_len(r: PreflateTokenReference) -> u32 { (r.len as u32 + 3) as u32 }
-spec fn token_ok(t: PreflateToken) -> bool {
+pub open spec fn ref_len(r: PreflateTokenReference) -> u32 { (r.len as u32 + 3) as u32 }
+pub open spec fn token_ok(t: PreflateToken) -> bool {
     match t { PreflateToken::Literal(l) => true, PreflateToken::Reference(r) => 1 <= r.dist <= 32768 }
 }
 
